@@ -28,6 +28,8 @@ pub struct OwnState {
     pub nominee: Option<String>,
     pub earliest: Option<u64>,
     pub handovers: u8,
+    /// unrelated admin operations interleaved so far (bounded)
+    pub noise: u8,
 }
 
 #[derive(Clone, Debug, Serialize, Deserialize, PartialEq)]
@@ -36,6 +38,9 @@ pub enum OwnAct {
     Revoke { by: String },
     Accept { by: String },
     Advance { to: u64 },
+    /// an unrelated admin-only operation by the current admin (halt, resume, config update, spend):
+    /// it must not disturb a pending handover
+    Noise { kind: u8 },
 }
 
 pub fn principals() -> Vec<String> {
@@ -63,7 +68,7 @@ fn call(which: Which, kv: &Kv, time: u64, sender: &str, act: &OwnAct) -> Result<
                 OwnAct::Transfer { to, .. } => M::TransferOwnership { new_owner: to.clone() },
                 OwnAct::Revoke { .. } => M::RevokeOwnershipTransfer {},
                 OwnAct::Accept { .. } => M::AcceptOwnership {},
-                OwnAct::Advance { .. } => unreachable!(),
+                OwnAct::Advance { .. } | OwnAct::Noise { .. } => unreachable!(),
             };
             let deps = DepsMut { storage: &mut kv2, api: &api, querier: QuerierWrapper::new(&q) };
             guarded(|| staking::contract::execute(deps, env(time), info, msg).map(|r| r.messages.len()).map_err(|e| e.to_string()))
@@ -74,7 +79,7 @@ fn call(which: Which, kv: &Kv, time: u64, sender: &str, act: &OwnAct) -> Result<
                 OwnAct::Transfer { to, .. } => M::TransferOwnership { new_owner: to.clone() },
                 OwnAct::Revoke { .. } => M::RevokeOwnershipTransfer {},
                 OwnAct::Accept { .. } => M::AcceptOwnership {},
-                OwnAct::Advance { .. } => unreachable!(),
+                OwnAct::Advance { .. } | OwnAct::Noise { .. } => unreachable!(),
             };
             let deps = DepsMut { storage: &mut kv2, api: &api, querier: QuerierWrapper::new(&q) };
             guarded(|| treasury::contract::execute(deps, env(time), info, msg).map(|r| r.messages.len()).map_err(|e| e.to_string()))
@@ -84,6 +89,40 @@ fn call(which: Which, kv: &Kv, time: u64, sender: &str, act: &OwnAct) -> Result<
         Err(_) => Err("PANIC".into()),
         Ok(Err(e)) => Err(e),
         Ok(Ok(_)) => Ok(kv2),
+    }
+}
+
+/// unrelated admin operations (they emit messages that are not dispatched here; only storage matters)
+fn noise_call(which: Which, kv: &Kv, time: u64, admin: &str, kind: u8) -> Result<Kv, String> {
+    let mut kv2 = kv.clone();
+    let api = SimApi { prefix: PROTO_PREFIX };
+    let q = NoQuerier;
+    let info = MessageInfo { sender: Addr::unchecked(admin), funds: vec![] };
+    let deps = DepsMut { storage: &mut kv2, api: &api, querier: QuerierWrapper::new(&q) };
+    let ok = match which {
+        Which::Staking => {
+            use staking::msg::ExecuteMsg as M;
+            let msg = match kind {
+                0 => M::CircuitBreaker {},
+                1 => M::ResumeContract { total_native_token: 0u128.into(), total_liquid_stake_token: 0u128.into(), total_reward_amount: 0u128.into() },
+                _ => M::UpdateConfig { native_chain_config: None, protocol_chain_config: None, protocol_fee_config: None, monitors: None, batch_period: Some(50) },
+            };
+            matches!(guarded(|| staking::contract::execute(deps, env(time), info, msg)), Ok(Ok(_)))
+        }
+        Which::Treasury => {
+            use treasury::msg::ExecuteMsg as M;
+            let msg = match kind {
+                0 => M::UpdateConfig { trader: Some(p20("B")), allowed_swap_routes: None },
+                1 => M::SpendFunds { amount: cosmwasm_std::Coin::new(5, "uosmo"), receiver: p20("C"), channel_id: None },
+                _ => M::UpdateConfig { trader: None, allowed_swap_routes: Some(vec![]) },
+            };
+            matches!(guarded(|| treasury::contract::execute(deps, env(time), info, msg)), Ok(Ok(_)))
+        }
+    };
+    if ok {
+        Ok(kv2)
+    } else {
+        Err("refused".into())
     }
 }
 
@@ -153,7 +192,7 @@ impl Scenario for OwnScenario {
             Which::Staking => World::new(&K::k0()).expect("instantiate").kv,
             Which::Treasury => treasury_kv(&p20("adm"), &p20("trader"), vec![]),
         };
-        vec![("fresh".into(), OwnState { which: self.which, kv, time: T0, admin: p20("adm"), nominee: None, earliest: None, handovers: 0 })]
+        vec![("fresh".into(), OwnState { which: self.which, kv, time: T0, admin: p20("adm"), nominee: None, earliest: None, handovers: 0, noise: 0 })]
     }
     fn actions(&self, s: &OwnState) -> Vec<OwnAct> {
         let ps = principals();
@@ -164,6 +203,11 @@ impl Scenario for OwnScenario {
             }
             a.push(OwnAct::Revoke { by: by.clone() });
             a.push(OwnAct::Accept { by: by.clone() });
+        }
+        if s.noise < 2 && s.nominee.is_some() {
+            for kind in 0..3u8 {
+                a.push(OwnAct::Noise { kind });
+            }
         }
         if s.time < T0 + 3 * WEEK {
             if let Some(t) = s.earliest {
@@ -184,6 +228,15 @@ impl Scenario for OwnScenario {
         if let OwnAct::Advance { to } = a {
             n.time = *to;
             return Step { next: Some(n), violations, tags: vec!["Advance:ok".into()], validated: 0, digest: 0 };
+        }
+        if let OwnAct::Noise { kind } = a {
+            // executed by the reference admin; its outcome is not judged here, only that the handover
+            // state (judged on every state and on every later step) is untouched
+            if let Ok(kv2) = noise_call(s.which, &s.kv, s.time, &s.admin, *kind) {
+                n.kv = kv2;
+            }
+            n.noise += 1;
+            return Step { next: Some(n), violations, tags: vec!["Noise:ok".into()], validated: 0, digest: 0 };
         }
         let by = match a {
             OwnAct::Transfer { by, .. } | OwnAct::Revoke { by } | OwnAct::Accept { by } => by.clone(),
